@@ -209,6 +209,37 @@ fn s7() {
     check("S7 re-test on the used object", &f(&again), &f(&exp));
 }
 
+/// S8: concurrent compilation of patterns with *different general-category escapes* (the
+/// one place the other scenarios avoid, because building a category set is slow under
+/// Miri): each thread compiles two patterns and classifies a few characters; expectations
+/// come from the main thread compiling the same patterns alone afterwards. Few seeds.
+fn s8() {
+    const PATS: [&str; 4] = [r"^\p{Lu}$", r"^\p{Ll}$", r"^\p{Nd}$", r"^\p{Sm}$"];
+    const PROBES: [&str; 4] = ["A", "a", "7", "+"];
+    let classify = |re: &Regex| -> Vec<String> {
+        PROBES.iter().map(|p| format!("{}", re.is_match(p))).collect()
+    };
+    let mut hs = Vec::new();
+    for t in 0..3usize {
+        hs.push(thread::spawn(move || {
+            let mut out = Vec::new();
+            for k in 0..2usize {
+                let i = (t + 2 * k) % 4;
+                let re = Regex::xpath(PATS[i], "").unwrap();
+                out.push((i, PROBES.iter().map(|p| format!("{}", re.is_match(p))).collect::<Vec<_>>()));
+            }
+            out
+        }));
+    }
+    let got: Vec<Vec<(usize, Vec<String>)>> = hs.into_iter().map(|h| h.join().unwrap()).collect();
+    for (t, per_thread) in got.iter().enumerate() {
+        for (i, g) in per_thread {
+            let exp = classify(&Regex::xpath(PATS[*i], "").unwrap());
+            check(&format!("S8 thread {} pattern {}", t, PATS[*i]), g, &exp);
+        }
+    }
+}
+
 // ---------------------------------------------------------------------------------------
 // Generated scenarios: `G <k>` derives a tiny multi-threaded script from the integer k
 // (pattern, flags, inputs, 2-3 threads, 2-3 operations each, optionally an in-thread
@@ -337,6 +368,7 @@ fn main() {
         "S5" => s5(),
         "S6" => s6(),
         "S7" => s7(),
+        "S8" => s8(),
         "G" => generated(
             std::env::args()
                 .nth(2)
